@@ -70,6 +70,17 @@ def run(chk, prog):
         chk.require(bool(err_edges) and not (r & set(pb)), "R2", f, "no-persist-after-error-item",
                     "after the stream yielded an error (digest mismatch, oversize, transport error) the file can "
                     "still be renamed into place", ctx.site(pb[0]))
+        # success means the rename happened: "either ends with a complete file whose bytes match the
+        # signed digest .. or fails" — an Ok return that by-passes the rename (e.g. "already there")
+        # vouches for bytes nobody verified
+        pe = []
+        for bb in pb:
+            pe.extend(ctx.track_call(bb).pos_edges(0))
+        okb = ctx.ok_return_blocks()
+        p = cfg.witness_path(okb, pe)
+        chk.require(bool(pe) and bool(okb) and p is None, "R2", f, "ok-needs-persist",
+                    "save_target returns Ok on a path that does not pass the Ok edge of the rename of the "
+                    "verified temporary file", ctx.site(pb[0]), path=ctx.describe_path(p))
         # the stream is the verified one and its acquisition succeeded
         for bb, t in reads:
             tr = ctx.track_call(bb)
